@@ -129,7 +129,12 @@ func (x *Exec) binop(st *State, fr *Frame, in *ssa.BinOp) Val {
 			unsup("float op %s", in.Op)
 		}
 		if in.Op == token.QUO {
-			x.oblige(st, fr, in, "fdiv", Not(Eq(bs, "0.0")), "float division by zero (real model)")
+			// In IEEE arithmetic x/0 with x != 0 is a well-defined infinity (and
+			// e.g. atan(x/0) is intended); the value the real model cannot
+			// represent at all is 0/0 = NaN, so that is what is excluded.
+			x.oblige(st, fr, in, "fdiv", Or(Not(Eq(bs, "0.0")), Not(Eq(as, "0.0"))), "0/0 (NaN) reachable in a float division")
+			x.assume(st, Not(Eq(bs, "0.0")))
+			x.note("real model: a float division with non-zero dividend is assumed to have a non-zero divisor (x/0 = Inf is not modelled)")
 		}
 		return Val{S: x.S.Define("f", "Real", "("+op+" "+as+" "+bs+")"), T: rt}
 	}
